@@ -692,6 +692,21 @@ def rule_div(repo, tier):
                                 'residual block gives 0/0 = NaN in its J\' rows, where Triggs must coincide with FastTriggs' % (src(d)[:60], src(den)[:20]), node=d))
     if n == 0:
         raise AnalysisError('C09.DIV: no division by the squared residual norm found in Triggs.forward')
+    # the rank-one (alpha) branch is documented "wherever rho'' > 0": the mask it is applied under also excludes rho'' <= 0 (g2, the third result of
+    # compute_grads).  With `g2 == 0` only, negative curvature enters 1 + 2 x rho''/rho', whose clamped root gives alpha = 1 and a division by 1 - alpha = 0
+    g2s = [nm for nm, vs in assigns.items() for v in vs if isinstance(v, tuple) and v[1] == 2 and isinstance(v[2].func, ast.Attribute) and v[2].func.attr == 'compute_grads']
+    if len(g2s) == 1:
+        g2 = g2s[0]
+        cmps = [c for c in ast.walk(f.node) if isinstance(c, ast.Compare) and len(c.ops) == 1 and
+                ((dotted(c.left) == g2 and isinstance(c.comparators[0], ast.Constant) and c.comparators[0].value == 0) or
+                 (dotted(c.comparators[0]) == g2 and isinstance(c.left, ast.Constant) and c.left.value == 0))]
+        okc = bool(cmps) and all(isinstance(c.ops[0], (ast.LtE, ast.Gt, ast.Lt, ast.GtE)) for c in cmps) and \
+            any((isinstance(c.ops[0], (ast.LtE, ast.Gt)) and dotted(c.left) == g2) or (isinstance(c.ops[0], (ast.GtE, ast.Lt)) and dotted(c.comparators[0]) == g2) for c in cmps)
+        res.inst({'function': f.fq, 'curvature tests': [src(c) for c in cmps], "excludes rho'' <= 0": okc}, 'curv')
+        if not okc:
+            res.add(Finding('C09.DIV', f, "the curvature guard `%s` of the rank-one branch does not exclude rho'' < 0: there 1 + 2 x rho''/rho' can be <= 0, the clamped root gives "
+                            'alpha = 1 and sR = se / (1 - alpha) R divides by zero (and Triggs no longer coincides with FastTriggs for the built-in kernels)'
+                            % (', '.join(src(c) for c in cmps) or 'missing'), node=cmps[0] if cmps else f.node, construct='curvature guard'))
     return res
 
 
